@@ -163,6 +163,9 @@ fn child(args: &[String]) -> ! {
     let mut block_bytes = 0usize;
     // the slope test needs traffic that exceeds the configured bound several times over
     let mut saturated = false;
+    // blocks_waiting: peak of the live heap while the blocks pile up, and the bytes of all blocks sent
+    let mut bw_peak = 0isize;
+    let mut bw_total = 0usize;
     let r = util::guarded(|| {
         match s.kind {
             // one object, FDT-only FTI, FDT never sent: packets are cached
@@ -211,7 +214,7 @@ fn child(args: &[String]) -> ! {
                 let k = 4usize; // symbols per block
                 let fec = s.fec;
                 block_bytes = e * k;
-                let nblocks = ((cache / block_bytes) + 6) * 4;
+                let nblocks = (((cache / block_bytes) + 6) * 4).max(240);
                 let nblocks = nblocks.min(if fec == 5 { 250 } else { 1800 });
                 let l = (nblocks * k * e) as u64;
                 let fti = Fti { fec, l, e: e as u16, b: k as u32, max_n: Some(k as u32 + 1), instance: Some(0), z: Some(nblocks.min(255) as u32), n: Some(1), al: Some(4), m: None, g: None };
@@ -230,10 +233,12 @@ fn child(args: &[String]) -> ! {
                         pushes += 1;
                     }
                     observe(&rx, &mut p);
+                    bw_peak = bw_peak.max(alloc::live() - baseline);
                     if sbn == nb / 10 || sbn + 1 == nb {
                         live_marks.push((pushes, alloc::live() - baseline));
                     }
                 }
+                bw_total = nb * block_bytes;
             }
             // in-band FTI announces a partitioning in 2^16 (No-Code) or 2^24 blocks of one 16-byte symbol; no FDT.
             // A few packets name blocks close to the first one, the others name blocks far ahead - all of them
@@ -396,6 +401,20 @@ fn child(args: &[String]) -> ! {
     if block_bytes > 0 && p.max_blocks_bytes > cache + 2 * block_bytes {
         add("blocks_limit", format!("decoded but unwritten blocks reached {} bytes, limit is cache {} + 2 blocks of {}", p.max_blocks_bytes, cache, block_bytes), json!({"max_blocks": p.max_blocks_bytes}));
     }
+    // the same bound on the real heap: the counters above are the receiver's own bookkeeping, and a block that is
+    // accounted in the wrong unit keeps them small while the memory goes. Allowance: the window of block
+    // descriptors (up to 4097 x 32 B, capacity doubling) and fixed structures = 384 KiB
+    // Calibration (unchanged tree, k = 4 symbols of 500 bytes): a waiting block costs its decoded bytes, its
+    // symbols still held by the decoder and the decoder itself - 12 KB for the Reed-Solomon codec object - so
+    // the allowance is (cache / block + 3) blocks x (2 x block + 16 KiB) + 384 KiB for the window of block descriptors
+    // and the fixed structures; observed peaks stay below 70 % of it, an unbounded object exceeds it 2-5 times
+    if block_bytes > 0 && s.cache.is_some() {
+        let allowed = ((cache / block_bytes + 3) * (2 * block_bytes + (16 << 10)) + (384 << 10)) as isize;
+        if bw_peak > allowed {
+            add("blocks_heap", format!("live heap reached {} bytes while decoded blocks of one object waited ({} bytes of blocks sent), allowed (cache {} / block {} + 3) x (2 blocks + 16 KiB) + 384 KiB = {}; the receiver's own counter says {} bytes",
+                bw_peak, bw_total, cache, block_bytes, allowed, p.max_blocks_bytes), json!({"peak": bw_peak, "counter": p.max_blocks_bytes}));
+        }
+    }
     if p.max_err_list > s.max_err {
         add("error_list_limit", format!("list of failed objects reached {} entries, max_objects_error is {}", p.max_err_list, s.max_err), json!(null));
     }
@@ -454,7 +473,7 @@ fn child(args: &[String]) -> ! {
     drop(builder);
     let out = json!({"scenario": format!("{:?}", s), "pushes": pushes, "max_cached_bytes": p.max_cached, "max_block_bytes": p.max_blocks_bytes,
         "max_error_list": p.max_err_list, "max_fdt_current": p.max_fdt_current, "max_fdt_receivers": p.max_fdt_receivers, "max_objects": p.max_objects, "max_sessions": p.max_sessions,
-        "live_marks": live_marks, "peak_live": alloc::peak() - baseline, "released": released, "violations": viol});
+        "blocks_waiting_peak": bw_peak, "blocks_sent_bytes": bw_total, "live_marks": live_marks, "peak_live": alloc::peak() - baseline, "released": released, "violations": viol});
     println!("R {}", out);
     std::process::exit(0);
 }
